@@ -44,6 +44,9 @@ EmF(name) == [k |-> "Em", name |-> name, mv |-> NoMv]
 RefF(name, cls) == [k |-> "Ref", name |-> name, cls |-> cls, over |-> <<>>, mv |-> NoMv]
 RefSelF(name, key, alts, form, dflt) ==
     [k |-> "RefSel", name |-> name, key |-> key, alts |-> alts, form |-> form, dflt |-> dflt, mv |-> NoMv]
+RefSelSharedF(name, key, alts, table, dflt) ==     \* the option table object is shared by several fields
+    [k |-> "RefSel", name |-> name, key |-> key, alts |-> alts, form |-> "shared", table |-> table,
+     dflt |-> dflt, mv |-> NoMv]
 RepCountF(name, elem, count, when, aligned) ==
     [k |-> "Rep", name |-> name, elem |-> elem, count |-> count, until |-> NoCond,
      when |-> when, aligned |-> aligned, dflt |-> <<>>, mv |-> NoMv]
